@@ -176,7 +176,8 @@ pub fn to_der<M: ASN1>(message: &M) -> (r: Vec<u8>)
     ensures r@ == der_encode(message.av())
 { unimplemented!() }
 
-/// x509_parser::error::X509Error inside nom::Err
+/// x509_parser::error::X509Error inside nom::Err (Debug: what Result::unwrap needs)
+#[derive(Debug)]
 pub struct X509Error { pub _p: () }
 /// x509_parser::parse_x509_der (reason: x509-parser crate).  May fail on any input: returns a Result
 #[verifier::external_body]
